@@ -300,8 +300,8 @@ fn enumerate(c: &mut Case, scale: Scale) {
 
 pub fn run(ctx: &Ctx, evidence: Option<&PathBuf>) -> i32 {
     let scale = ctx.scale;
-    ctx.run_fixed("directed", ctx.dn(32), |c| enumerate(c, scale));
-    let n = ctx.size(64, 6_400);
+    ctx.run_fixed("directed", if ctx.miri() { 1 } else { ctx.dn(32) }, |c| enumerate(c, scale));
+    let n = ctx.size3(64, 6_400, 1);
     ctx.run_cases("fault-points", n, |c| enumerate(c, scale));
     ctx.gate("eof_offsets", 5_000);
     ctx.gate("read_error_points", 500);
